@@ -13,7 +13,7 @@
 (* Numbers: rationals <<num, den>>; times: microseconds as small integers. *)
 (***************************************************************************)
 EXTENDS Integers, Sequences, FiniteSets, TLC, Json, IOUtils
-CONSTANTS Mode       \* "param" | "metric" | "measurement" | "trial" | "delta" | "judge"
+CONSTANTS Mode       \* "param" | "metric" | "measurement" | "trial" | "delta" | "config" | "judge"
 
 \* ------------------------------------------------------------ parameters
 ParamCases ==
@@ -52,6 +52,17 @@ TrialCases ==
 CellVals == {"absent", "v", "empty", "proto"}
 DeltaCases == [study_root : CellVals, study_ns : CellVals, trial1_root : CellVals, trial2_ns : {"absent", "v", "empty"}]
 
+\* -------------------------------------------------------- study configs
+\* a StudyConfig carrying metadata, possibly received from the wire and then EDITED before it is sent again
+ConfigCases == [algo : {"RANDOM_SEARCH", "NSGA2"}, noise : {"unset", "LOW", "HIGH"}, root : {"absent", "v", "empty"}, ns : {"absent", "v"},
+                edit : {"none", "delete_root", "delete_ns", "overwrite_root", "add_ns"}]
+AfterEdit(c) == CASE c.edit = "delete_root" -> [c EXCEPT !.root = "absent"]
+                  [] c.edit = "delete_ns" -> [c EXCEPT !.ns = "absent"]
+                  [] c.edit = "overwrite_root" -> [c EXCEPT !.root = "v"]
+                  [] c.edit = "add_ns" -> [c EXCEPT !.ns = "v"]
+                  [] OTHER -> c
+Expect(c) == IF Mode = "config" THEN AfterEdit(c) ELSE c
+
 \* ================================================================= driver
 Obs == IF Mode = "judge" THEN JsonDeserialize(IOEnv.TRACE_FILE) ELSE <<>>
 VARIABLES case, i
@@ -60,13 +71,14 @@ Init == CASE Mode = "param" -> case \in ParamCases /\ i = 0
           [] Mode = "measurement" -> case \in MeasurementCases /\ i = 0
           [] Mode = "trial" -> case \in TrialCases /\ i = 0
           [] Mode = "delta" -> case \in DeltaCases /\ i = 0
+          [] Mode = "config" -> case \in ConfigCases /\ i = 0
           [] Mode = "judge" -> i \in 1..Len(Obs) /\ case = Obs[i].case
 Spec == Init /\ [][UNCHANGED <<case, i>>]_<<case, i>>
-Dump == PrintT(ToJson([case |-> case]))
+Dump == PrintT(ToJson([case |-> case, expect |-> Expect(case)]))
 
 \* verdict on one observation [case, back, idem, refused]:
 \*   back = projection of from_proto(to_proto(x)) in the vocabulary of the case
-RoundTrip(o) == o.back = o.case
+RoundTrip(o) == o.back = o.expect
 Idempotent(o) == o.idem
 Verdict(o) == IF o.refused THEN "refused"
               ELSE IF ~RoundTrip(o) THEN "roundtrip"
